@@ -93,6 +93,7 @@ func harnessC07Step(nMembers, op int) {
 	}
 	// counted independently of Topic.subsCount: every entry of the member table takes a slot, blocked ones too
 	verifAssert(len(t.perUser) <= globals.maxSubscriberCount || len(t.perUser) <= len(w.before), "subscriber-limit-holds")
+	w.assertChangesNotified()
 	_ = opDone
 	_ = target
 	verifReach("end")
